@@ -129,6 +129,15 @@ pub fn run(env: &Env, run: &Run) -> (Stats, Coverage) {
                 }
             }
         }
+        // history within one string: the code point next to each of its bit-16..20 aliases
+        for a in alias_chars(c) {
+            for l in [vec![c as u32, a as u32], vec![a as u32, c as u32]] {
+                let s = from_cps(&l);
+                for p in Prof::ALL {
+                    check_input(env, p, &s, st);
+                }
+            }
+        }
     });
     // (b) every canonical decomposition: full sequence, mark permutations, proper prefixes
     let decomposable: Vec<u32> = env
@@ -192,11 +201,25 @@ pub fn run(env: &Env, run: &Run) -> (Stats, Coverage) {
             check_input(env, p, s, st);
         }
     }));
+
+    // structural families: pumped runs a^k b / b a^k / a^k b a (k around 8, 16, 32, 64 and, for a
+    // few symbols, 128..1025) and every ASCII character at every offset of 7..33-byte ASCII strings
+    let fam = {
+        let mut v = pumped(&sigma, &PUMP_LENGTHS);
+        v.extend(pumped(&sigma[..sigma.len().min(6)], &PUMP_LENGTHS_LONG));
+        v.extend(ascii_blocks());
+        v
+    };
+    st.merge(run_family(&fam, |s, st| {
+        for p in Prof::ALL {
+            check_input(env, p, s, st);
+        }
+    }));
     st.sample(json!({"profile": "UsernameCaseMapped", "input": ["U+13A0"], "expected": "output must not contain U+AB70 (UNASSIGNED in 6.3.0)"}));
     st.sample(json!({"profile": "Nickname", "input": ["U+3131"], "expected": "Err: NFKC gives U+1100 (DISALLOWED old Hangul jamo), caught by re-validation"}));
     st.sample(json!({"profile": "OpaqueString", "input": ["U+0041", "U+030A"], "expected": "Ok(U+00C5); enforcing U+00C5 again returns it unchanged"}));
     let cov = Coverage {
-        rule: format!("(a) every scalar value between prefixes {{'', a, U+05D0}} and suffixes {{'', U+0308, U+0301, a}} x 4 profiles; (b) each of the {} canonically decomposable characters of UnicodeData 16.0: its full decomposition, its direct decomposition, every permutation of its combining marks, every proper prefix (+ next mark), and the upper-cased variants; (c) every string of length <= {} over 24 cased/width/compatibility symbols; oracle on each accepted result e: every code point re-classified with the profile's own class AND the reference derived property is neither DISALLOWED nor UNASSIGNED, and enforce(e) is Ok(e) or an error; non-trivial = accepted inputs whose result differs from the input", decomposable.len(), n),
+        rule: format!("(a) every scalar value between prefixes {{'', a, U+05D0}} and suffixes {{'', U+0308, U+0301, a}} x 4 profiles; (b) each of the {} canonically decomposable characters of UnicodeData 16.0: its full decomposition, its direct decomposition, every permutation of its combining marks, every proper prefix (+ next mark), and the upper-cased variants; (c) every string of length <= {} over 24 cased/width/compatibility symbols, pumped runs, ASCII block strings, and every scalar value next to each of its bit-16..20 aliases; oracle on each accepted result e: every code point re-classified with the profile's own class AND the reference derived property is neither DISALLOWED nor UNASSIGNED, and enforce(e) is Ok(e) or an error; non-trivial = accepted inputs whose result differs from the input", decomposable.len(), n),
         alphabet: json!(sigma.iter().map(|c| format!("U+{:04X}", *c as u32)).collect::<Vec<_>>()),
         bound_completed: format!("sweep 1,112,064 x 12 contexts x 4 profiles; {} decomposable characters; tree length <= {}", decomposable.len(), n),
         exhaustive: false,
